@@ -146,6 +146,8 @@ Step ==
            \* failures): the failed attempt is not judged; its retry is judged as a deletion of the original range by the
            \* clauses that do not depend on the state the failure left behind
            F == IF e.dsFault THEN If(e.res = "panic", "C08_no_crash")
+                     \* (a deletion that reports success although one of its datastore writes failed has still to have done its job)
+                     \cup If(e.res = "ok" /\ rng \cap (o.R \cup o.RH \cup o.KH \cup o.KI) # {}, "C08_range_not_retrievable_after_success")
                      \cup If(e.res # "ok" /\ o.head # 0 /\ o.tail # 0 /\
                              ~(o.head \in (o.R \cap o.RH \cap o.KH) /\ o.tail \in (o.R \cap o.RH \cap o.KH) /\ o.tail <= o.head),
                              "C08_partial_failure_leaves_sane_pointers")
